@@ -119,7 +119,9 @@ def gen_case(rng: random.Random, tier: str, kind=None):
     order = order[:k] + [a for a in ACCESSORS if a not in order[:k]]    # all seven, random first k
     rng.shuffle(order)
     early = (kill is None or kill['phase'] in ('during', 'after')) and rng.random() < 0.3
-    return dict(kind=kind, outcome=outcome, kill=kill, order=order, early=early, seed=rng.randrange(1 << 30))
+    call_first = bool(kill) and kill['phase'] in ('before', 'during', 'after') and order[0] in BLOCKING and rng.random() < 0.4
+    return dict(kind=kind, outcome=outcome, kill=kill, order=order, early=early, call_first=call_first,
+                seed=rng.randrange(1 << 30))
 
 
 def boundary_cases():
@@ -242,7 +244,7 @@ def monitor(case, res):
     for a, r in ans:
         if r == 'HANG':
             mon.append(dict(prop='C12', rule='hang',
-                            detail=f'{a}() did not return within {HANG_BOUND}s; case class {case_class(case)}; '
+                            detail=f'{a}() did not return within {hang_bound(case)}s; case class {case_class(case)}; '
                                    f'answers so far {ans}'))
         elif r == 'SKIPPED':
             continue
@@ -282,7 +284,7 @@ def run_inner(script, case, outer_bound):
         json.dump(case, f)
     env = dict(os.environ)
     env['PYTHONPATH'] = _repo_src() + os.pathsep + os.path.dirname(os.path.abspath(script))
-    env['VERIF_HANG_BOUND'] = str(HANG_BOUND)
+    env['VERIF_HANG_BOUND'] = str(hang_bound(case))
     t0 = time.time()
     with open(lf, 'w') as log:
         p = subprocess.Popen([sys.executable, script, '--inner', cf, of], stdin=subprocess.DEVNULL, stdout=log,
@@ -325,9 +327,39 @@ def run_inner(script, case, outer_bound):
     return res
 
 
+def hang_bound(case):
+    return float(case.get('hang_bound') or HANG_BOUND)
+
+
+def recheck_hangs(chk, scen_name, results, classof):
+    """The hang bound is max(20 s, 20 x median duration of the case class on this run).  The first
+    pass uses 20 s; where a case hit it although 20 x the median of its class (taken over the runs
+    of the class that did not hang) is larger - a loaded machine, a heavy class - the case is run
+    again with that bound and the second verdict replaces the first.  A class in which every run
+    hangs, or whose median is small, keeps its verdict."""
+    import collections
+    walls = collections.defaultdict(list)
+    for c, r in results:
+        if not any(m['rule'] == 'hang' for m in r.get('monitors', [])):
+            walls[classof(c)].append(r.get('wall', 0.0))
+    redo = []
+    for i, (c, r) in enumerate(results):
+        if any(m['rule'] == 'hang' for m in r.get('monitors', [])):
+            ws = sorted(walls.get(classof(c), []))
+            if ws and 20 * ws[len(ws) // 2] > hang_bound(c):
+                redo.append((i, dict(c, hang_bound=round(20 * ws[len(ws) // 2], 1))))
+    if redo:
+        res2 = chk.run_cases(scen_name, [c for _, c in redo], sched=False, per_case_timeout=3600.0)
+        for (i, _), cr in zip(redo, res2):
+            results[i] = cr
+        chk.notes.append(f'{len(redo)} cases hit the 20 s hang bound in classes whose median duration on this run justifies a larger '
+                         f'bound (20 x median); re-run with that bound: '
+                         f'{sum(1 for _, r in res2 if any(m["rule"] == "hang" for m in r.get("monitors", [])))} still hang')
+    return results
+
+
 def run_case(case):
-    n_block = sum(1 for a in case['order'] if a in BLOCKING)
-    res = run_inner(os.path.abspath(__file__), case, outer_bound=HANG_BOUND * 1.5 + 60)
+    res = run_inner(os.path.abspath(__file__), case, outer_bound=hang_bound(case) * 1.5 + 60)
     if res.get('infra'):
         res['infra_error'] = res['infra']
         res.setdefault('monitors', [])
@@ -521,7 +553,7 @@ def _inner(case):
         if case.get('early') and phase in ('during', 'after'):
             for a in ('done', 'exitcode'):
                 out['early_answers'].append([a, nonblocking(a)])
-        if phase != 'between':
+        if phase != 'between' and not case.get('call_first'):
             os.kill(w.pid, sig)
     elif case.get('early'):
         # the target waits for `after`; ask the non-blocking accessors while it certainly runs
@@ -580,6 +612,10 @@ def _inner(case):
         box = []
         th = threading.Thread(target=lambda: box.append(call(a)), daemon=True)
         th.start()
+        if case.get('call_first') and not out['answers'] and case.get('kill'):
+            # the accessor is (most likely) already blocked in the OS-level join when the signal arrives
+            time.sleep(0.05)
+            os.kill(w.pid, sig)
         th.join(HANG_BOUND)
         if th.is_alive():
             out['answers'].append([a, 'HANG'])
